@@ -11,7 +11,7 @@ import copy
 
 import numpy as np
 
-from .. import histories
+from .. import gen, histories
 from ..ctx import biteq, close
 from ..models import stats as MS
 from ..models.peaks import Oracle
@@ -28,7 +28,7 @@ ASSUMPTIONS = [
     "cached per-window peaks are taken from the object (C08 judges them)",
     "curve statistics weight the accepted windows (window mask), resonance statistics the accepted windows that hold a peak",
 ]
-NOT_REACHED = ["azimuths without any accepted window", "more than 8 azimuths in this check"]
+NOT_REACHED = ["azimuths without any accepted window", "between 9 and 35 azimuths in this check"]
 BUDGET = {"quick": dict(cases=700, seconds=60, shards=4),
           "thorough": dict(cases=16000, seconds=600, shards=16)}
 REQUIRED = ["mon:weighted-estimator", "mon:variance-on-covariance-diagonal", "mon:single-azimuth-equals-traditional",
@@ -252,6 +252,26 @@ def maybe_repeat_azimuth_value(rng, az):
     return False
 
 
+def build_large(rng):
+    """A dense azimuth sweep of a long recording: accepted windows x frequency samples above 2^20, unequal counts."""
+    import hvsrpy
+    n_az, n_freq = int(rng.choice([36, 45])), int(rng.choice([512, 600]))
+    f = np.geomspace(0.2, 40, n_freq)
+    lf = np.log(f)
+    hv = []
+    for a in range(n_az):
+        nc = int(rng.integers(55, 75))
+        c = rng.uniform(lf[40], lf[-40]) + 0.3 * np.sin(a / n_az * 2 * np.pi)
+        amp = (1.0 + 0.5 * a / n_az) * (1.0 + rng.uniform(1, 5, (nc, 1)) * np.exp(-0.5 * ((lf[None, :] - (c + rng.normal(0, 0.1, (nc, 1)))) / 0.2) ** 2))
+        hv.append(hvsrpy.HvsrTraditional(f, amp))
+    az = hvsrpy.HvsrAzimuthal(hv, np.linspace(0, 180, n_az, endpoint=False).tolist(), meta={"processing_method": "azimuthal"})
+    for h in az.hvsrs[::3]:                              # unequal accepted counts
+        k = int(rng.integers(1, 20))
+        h.valid_window_boolean_mask[:k] = False
+        h.valid_peak_boolean_mask[:k] = False
+    return az
+
+
 def fam_history(ctx, rng):
     az = histories.build_azimuthal(rng)
     maybe_repeat_azimuth_value(rng, az)
@@ -292,5 +312,18 @@ def fam_single_azimuth(ctx, rng):
     ctx.nontrivial(["single", int(az.hvsrs[0].n_curves), az.hvsrs[0].valid_window_boolean_mask.tolist()])
 
 
-FAMILIES = [("azimuth-without-peak", fam_azimuth_without_peak), ("random-history", fam_history), ("manual-unequal-counts", fam_manual_unequal),
-            ("single-azimuth", fam_single_azimuth), ("random-history-2", fam_history)]
+def or_large(fn):
+    """Whatever the family, the cases with index 7 mod 349 (two per quick run) are the costly dense sweep."""
+    def run(ctx, rng):
+        if not ctx.every(349, 7):
+            return fn(ctx, rng)
+        az = build_large(rng)
+        judge_state(ctx, az, [["large"]], rng)
+        ctx.describe(n_azimuths=len(az.hvsrs), n_curves=[int(h.n_curves) for h in az.hvsrs][:6], n_freq=int(az.frequency.size), steps=["large"])
+        ctx.nontrivial(["large", len(az.hvsrs), int(az.frequency.size)])
+    return run
+
+
+FAMILIES = [(n, or_large(f)) for n, f in
+            [("azimuth-without-peak", fam_azimuth_without_peak), ("random-history", fam_history), ("manual-unequal-counts", fam_manual_unequal),
+             ("single-azimuth", fam_single_azimuth), ("random-history-2", fam_history)]]
